@@ -225,6 +225,15 @@ def gen_scenario(seed, profile="general", n_ops=(3, 9)):
             ops.append({"op": "infosf", "at": "", "file": rnd.choice(files)})
         else:
             ops.append({"op": "flatten", "at": ""})
+    # the leftover of an interrupted create (a manifest the chain does not list) somewhere in the middle
+    if rnd.random() < 0.12:
+        cs = [i for i, o in enumerate(ops) if o["op"] == "create" and not o.get("at")]
+        if cs:
+            k = rnd.choice(cs) + 1
+            # (under a name of its own: a re-run in the very same clock second would reuse the leftover's name and
+            # overwrite it - the model covers that case, `interrupted_generation_absent`; the byte-level monitors
+            # would have to tell a leftover from a manifest)
+            ops.insert(k, {"op": "orphan", "hist": "", "other_name": True})
     # spell some root paths / -sf paths in a non-canonical way (trailing slash, dot segments, relative invocation)
     for o in ops:
         if o["op"] in ("create", "verify", "verifydh", "diff", "info", "flatten") and rnd.random() < 0.2:
